@@ -35,6 +35,9 @@ def gen_aperture(r, boundary=False):
         val = r.choice([30.0, 45.0, 90.0, -60.0, r.uniform(-180.0, 180.0)]) * (60.0 if unit == 'arcmin' else 1.0)
         p['theta_q'] = [val, unit]
         p['theta'] = float((val * (u.arcmin if unit == 'arcmin' else u.deg)).to(u.radian).value)
+    if kind in ('ellann', 'rectann') and r.random() < 0.35:
+        # an explicit inner minor axis / inner height (b_in, h_in) that is not the default b_out * a_in / a_out
+        p['inner_b'] = r.choice([v for v in (0.5, 0.25, 0.75, 0.875) if v != inner])
     if not kind.startswith('circ') and r.random() < 0.15:
         # the aperture is first built with another orientation, its cached geometry is read, and theta is then re-assigned
         p['via_setter'] = True
@@ -65,10 +68,14 @@ def make_aperture(kind, p):
     if kind == 'ell':
         return EllipticalAperture(pos, s, s * ra, theta=th)
     if kind == 'ellann':
+        if 'inner_b' in p:
+            return EllipticalAnnulus(pos, s * inn, s, s * ra, b_in=s * ra * p['inner_b'], theta=th)
         return EllipticalAnnulus(pos, s * inn, s, s * ra, theta=th)   # b_in = b_out*a_in/a_out
     if kind == 'rect':
         return RectangularAperture(pos, 2 * s, 2 * s * ra, theta=th)
     if kind == 'rectann':
+        if 'inner_b' in p:
+            return RectangularAnnulus(pos, 2 * s * inn, 2 * s, 2 * s * ra, h_in=2 * s * ra * p['inner_b'], theta=th)
         return RectangularAnnulus(pos, 2 * s * inn, 2 * s, 2 * s * ra, theta=th)
     raise ValueError(kind)
 
@@ -84,12 +91,12 @@ def shape_params(kind, p):
         a, b = s, s * ra
         xext = math.sqrt((a * c) ** 2 + (b * sn) ** 2)
         yext = math.sqrt((a * sn) ** 2 + (b * c) ** 2)
-        return dict(outer=(a, b), inner=(a * inn, b * inn) if kind == 'ellann' else None, c=c, s=sn,
+        return dict(outer=(a, b), inner=(a * inn, b * p.get('inner_b', inn)) if kind == 'ellann' else None, c=c, s=sn,
                     xext=xext, yext=yext)
     w, h = 2 * s, 2 * s * ra
     xext = max(abs(w / 2 * c - h / 2 * sn), abs(w / 2 * c + h / 2 * sn))
     yext = max(abs(w / 2 * sn + h / 2 * c), abs(w / 2 * sn - h / 2 * c))
-    return dict(outer=(w, h), inner=(w * inn, h * inn) if kind == 'rectann' else None, c=c, s=sn,
+    return dict(outer=(w, h), inner=(w * inn, h * p.get('inner_b', inn)) if kind == 'rectann' else None, c=c, s=sn,
                 xext=xext, yext=yext)
 
 
@@ -531,8 +538,8 @@ def probe_exact(rep, r, n):
         area = float(ap.area)
         s, ra, inn = p['size'], p['ratio'], p['inner']
         ana = {'circ': math.pi * s * s, 'circann': math.pi * s * s * (1 - inn * inn),
-               'ell': math.pi * s * s * ra, 'ellann': math.pi * s * s * ra * (1 - inn * inn),
-               'rect': 4 * s * s * ra, 'rectann': 4 * s * s * ra * (1 - inn * inn)}[kind]
+               'ell': math.pi * s * s * ra, 'ellann': math.pi * s * s * ra * (1 - inn * p.get('inner_b', inn)),
+               'rect': 4 * s * s * ra, 'rectann': 4 * s * s * ra * (1 - inn * p.get('inner_b', inn))}[kind]
         if abs(area - ana) > 1e-9 * max(ana, 1e-3):
             rep.violation(f'area-attr:{kind}', f'{kind}.area {area} != analytic {ana}', replay)
             continue
